@@ -131,7 +131,12 @@ class Engine(GenericConcreteEngine[Callable[..., Any]]):
                     return tree, commutator.done, commutator.messages
                 else:
                     upstream, done, messages = self.backtrack_unary(commutator.first, target, preferred)
-                    if upstream is not target:
+                    if upstream is not target or (done and commutator.second is not tree.operation):
+                        # The second condition handles the case where inserting
+                        # the first operation upstream was a no-op but moving
+                        # it there still changed the operation that follows it
+                        # (e.g. a Projection that makes a Calculation
+                        # unnecessary).
                         result = commutator.second._finish_apply(upstream)
                     else:
                         result = tree
